@@ -530,4 +530,121 @@ theorem expNorm_normal (T : Table) (hT : TimerOk T) : ∀ (n : Nat) (f : FSys) (
           simp only [extract, if_neg hl, if_neg hst, hs, Option.map_eq_none_iff] at this
           exact this
 
+/-! ### both normal forms at once: carrying `Close()` calls forward keeps the expiries in place -/
+
+theorem step_close (T : Table) (f : FSys) : FSys.step T f .closeSig = some (closeF f, []) := rfl
+
+/-- A statement that is not the `select` does the same with and without a pending `Close()`. -/
+theorem step_closeF (T : Table) (f : FSys) (l : FLabel) (hsel : ¬ (l = .main ∧ f.mpc = .atSelect)) :
+    FSys.step T (closeF f) l = (FSys.step T f l).map (fun r => (closeF r.1, r.2)) := by
+  have h := closeSig_commutes T f l hsel
+  simp only [step2, FSys.run, step_close] at h
+  cases h1 : FSys.step T (closeF f) l with
+  | none =>
+    cases h2 : FSys.step T f l with
+    | none => rfl
+    | some b => rw [h1, h2] at h; simp at h
+  | some a =>
+    cases h2 : FSys.step T f l with
+    | none => rw [h1, h2] at h; simp at h
+    | some b =>
+      rw [h1, h2] at h
+      simp only [List.nil_append, List.append_nil, Option.some.injEq, Prod.mk.injEq] at h
+      obtain ⟨a1, a2⟩ := a
+      obtain ⟨b1, b2⟩ := b
+      simp only at h
+      simp only [Option.map_some, Option.some.injEq, Prod.mk.injEq]
+      exact h
+
+theorem isArming_closeF (T : Table) (f : FSys) (l : FLabel) : isArming T (closeF f) l = isArming T f l := rfl
+
+theorem isArming_expire (T : Table) (f : FSys) : isArming T f .expire = false := rfl
+theorem isArming_close (T : Table) (f : FSys) : isArming T f .closeSig = false := rfl
+
+theorem expNormal_mono (T : Table) (f : FSys) (ls : List FLabel) (fl : Bool) (h : expNormal T false f ls = true) :
+    expNormal T fl f ls = true := by
+  cases ls with
+  | nil => rfl
+  | cons l ls =>
+    simp only [expNormal] at h ⊢
+    cases hs : FSys.step T f l with
+    | none => rfl
+    | some r =>
+      rw [hs] at h
+      simp only [Bool.and_eq_true] at h ⊢
+      refine ⟨?_, h.2⟩
+      by_cases hl : l = .expire
+      · rw [if_pos hl] at h; exact absurd h.1 (by simp)
+      · rw [if_neg hl]
+
+theorem expNormal_close_cons (T : Table) (f : FSys) (ls : List FLabel) (fl : Bool) :
+    expNormal T fl f (.closeSig :: ls) = expNormal T false (closeF f) ls := by
+  simp only [expNormal, step_close]
+  simp [isArming_close]
+
+theorem expNormal_cs (T : Table) : ∀ (k : Nat) (f : FSys) (fl : Bool), expNormal T fl f (cs k) = true
+  | 0, _, _ => rfl
+  | k + 1, f, fl => by rw [cs_succ, expNormal_close_cons]; exact expNormal_cs T k _ _
+
+/-- Carrying `Close()` calls forward keeps a schedule expiry-normal. -/
+theorem closeNorm_expNormal (T : Table) : ∀ (ls : List FLabel) (k : Nat) (f : FSys) (fl : Bool),
+    (if k = 0 then expNormal T fl f ls else expNormal T fl (closeF f) ls) = true →
+    expNormal T fl f (closeNorm T k f ls) = true
+  | [], k, f, fl, _ => by simp only [closeNorm]; exact expNormal_cs T k f fl
+  | l :: ls, k, f, fl, h => by
+    simp only [closeNorm]
+    by_cases hl : l = .closeSig
+    · subst hl
+      rw [if_pos rfl]
+      refine closeNorm_expNormal T ls (k + 1) f fl ?_
+      rw [if_neg (Nat.succ_ne_zero k)]
+      apply expNormal_mono
+      by_cases hk : k = 0
+      · rw [if_pos hk, expNormal_close_cons] at h; exact h
+      · rw [if_neg hk, expNormal_close_cons] at h
+        rw [closeF_noop (closeF f) rfl] at h; exact h
+    · rw [if_neg hl]
+      by_cases hx : k ≠ 0 ∧ l = .main ∧ f.mpc = .atSelect
+      · rw [if_pos hx]
+        obtain ⟨hk, rfl, hpc⟩ := hx
+        have hstep := select_close_step T f hpc
+        rw [if_neg hk] at h
+        simp only [expNormal, hstep] at h
+        rw [expNormal_close_cons]
+        simp only [expNormal, hstep]
+        have hia : isArming T (closeF f) .main = false := by simp [isArming, closeF, hpc]
+        rw [hia] at h ⊢
+        simp only [if_neg (by decide : FLabel.main ≠ .expire), Bool.true_and] at h ⊢
+        refine closeNorm_expNormal T ls (k - 1) _ false ?_
+        by_cases hk1 : k - 1 = 0
+        · rw [if_pos hk1]; exact h
+        · rw [if_neg hk1, closeF_noop _ rfl]; exact h
+      · rw [if_neg hx]
+        by_cases hk : k = 0
+        · subst hk
+          rw [if_pos rfl] at h
+          simp only [expNormal] at h
+          cases hs : FSys.step T f l with
+          | none => simp only [expNormal, hs]
+          | some r =>
+            obtain ⟨f', o⟩ := r
+            rw [hs] at h
+            simp only [Bool.and_eq_true] at h
+            simp only [expNormal, hs, Bool.and_eq_true]
+            exact ⟨h.1, closeNorm_expNormal T ls 0 f' _ (by rw [if_pos rfl]; exact h.2)⟩
+        · rw [if_neg hk] at h
+          have hsel : ¬ (l = .main ∧ f.mpc = .atSelect) := fun hh => hx ⟨hk, hh⟩
+          have hsc := step_closeF T f l hsel
+          simp only [expNormal] at h
+          cases hs : FSys.step T f l with
+          | none => simp only [expNormal, hs]
+          | some r =>
+            obtain ⟨f', o⟩ := r
+            rw [hs] at hsc
+            simp only [Option.map_some] at hsc
+            rw [hsc] at h
+            simp only [Bool.and_eq_true, isArming_closeF] at h
+            simp only [expNormal, hs, Bool.and_eq_true]
+            exact ⟨h.1, closeNorm_expNormal T ls k f' _ (by rw [if_neg hk]; exact h.2)⟩
+
 end VaxisModel.Lemmas.ParserRunSchedNormal
